@@ -203,6 +203,13 @@ def hostile_phase(tier, seed, col):
         total += n
         for k, det in viol:
             col.add(k, {'cfg': det['cfg'], 'history': det['history'], 'deferred': True}, det)
+    # a REST send inside its worker thread x one event of the reactor thread, every schedule with one preemption (vf/threads.py)
+    from .. import concurrent
+    cts = concurrent.tasks(PROP, tier)
+    for t, (n, viol, cl) in zip(cts, explore.pmap(concurrent.task3, cts, chunk=1)):
+        total += n
+        for k, det in viol:
+            col.add(k, {x: det[x] for x in det if x in ('specs', 'start', 'cuts', 'label', 'bound')}, det)
     return total, len(items)
 
 
@@ -217,6 +224,9 @@ def replay(path):
     import json
     d = json.load(open(path))
     w = d['witness']
+    if '|threads|' in d['key']:
+        from .. import concurrent
+        return concurrent.cli_replay(PROP, d)
     if w.get('deferred'):
         from .. import deferred
         a, b = report.fresh(deferred.replay, PROP, w), report.fresh(deferred.replay, PROP, w)
